@@ -287,7 +287,9 @@ def _native_locate_replay(obligation, cex):
             o.initial_date = 1000 + 10 * i
             e._data_session.add(o)
         e._data_session.commit()
-        payload = RP.build_native(cex.get('payload'))
+        payload = cex.get('payload')
+        if not isinstance(payload, payloads.LocateRequestPayload):
+            payload = RP.build_native(payload)
         base = list(getattr(payload, '_attributes', None) or [])
         A = cobjects.Attribute
 
@@ -331,3 +333,50 @@ def _native_locate_replay(obligation, cex):
 
 
 contract(E + "_process_locate").native_replay(_native_locate_replay)
+
+
+# ---------------------------------------------------------------- bounded differential run (stand-in)
+def bounded_locate_differential(sess, tier):
+    """BOUNDED, not a proof: the real _process_locate on a real engine over the small population of
+    the replay harness, for one request per filterable attribute (several values each, usage masks
+    of one, two and three bits), each alone and combined with date filters and pages, compared with
+    spec_locate.  It stands in when a change moves the handler outside the executor's fragment
+    (undecided contracts) and cross-checks the specification functions against real objects."""
+    from vf import bounded
+    from kmip.core import enums, primitives, attributes as cattr, objects as cobjects
+    from kmip.core.factories import attributes as afac
+    from kmip.core.messages import payloads
+    f = afac.AttributeFactory()
+    AT = enums.AttributeType
+    M = enums.CryptographicUsageMask
+    singles = []
+    for nm in ('a', 'b', 'zz', ''):
+        singles.append(f.create_attribute(AT.NAME, cattr.Name.create(nm, enums.NameType.UNINTERPRETED_TEXT_STRING)))
+    for st in (enums.State.PRE_ACTIVE, enums.State.ACTIVE):
+        singles.append(f.create_attribute(AT.STATE, st))
+    for ot in (enums.ObjectType.SYMMETRIC_KEY, enums.ObjectType.SECRET_DATA, enums.ObjectType.CERTIFICATE):
+        singles.append(f.create_attribute(AT.OBJECT_TYPE, ot))
+    for alg in (enums.CryptographicAlgorithm.AES, enums.CryptographicAlgorithm.TRIPLE_DES):
+        singles.append(f.create_attribute(AT.CRYPTOGRAPHIC_ALGORITHM, alg))
+    for ln in (128, 256, 192, 64):
+        singles.append(f.create_attribute(AT.CRYPTOGRAPHIC_LENGTH, ln))
+    for masks in ([M.ENCRYPT], [M.DECRYPT], [M.ENCRYPT, M.DECRYPT], [M.ENCRYPT, M.VERIFY], [M.VERIFY],
+                  [M.ENCRYPT, M.DECRYPT, M.SIGN]):
+        singles.append(f.create_attribute(AT.CRYPTOGRAPHIC_USAGE_MASK, masks))
+    singles.append(f.create_attribute(AT.OPERATION_POLICY_NAME, 'default'))
+    singles.append(f.create_attribute(AT.OBJECT_GROUP, ''))
+    singles.append(f.create_attribute(AT.OBJECT_GROUP, 'g'))
+    singles.append(f.create_attribute(AT.SENSITIVE, True))
+    singles.append(f.create_attribute(AT.SENSITIVE, False))
+    singles.append(f.create_attribute(AT.UNIQUE_IDENTIFIER, '2'))
+    fails, n = [], 0
+    for a in singles:
+        out = _native_locate_replay('bounded', {'payload': payloads.LocateRequestPayload(attributes=[a])})
+        n += out.get('tries', 0)
+        if out.get('confirmed'):
+            fails.append(({k: out[k] for k in ('request', 'real_answer', 'specified_answer', 'store') if k in out},
+                          "Locate answered %s, the specification gives %s for %s" % (
+                              out.get('real_answer'), out.get('specified_answer'), out.get('request'))))
+    bounded._record(sess, "bounded:kmip.services.server.engine.KmipEngine._process_locate/differential-against-the-specification",
+                    fails, n, "%d single-attribute filters x 8 date-filter placements x 5 pages over 6 stored objects" % len(singles))
+    sess.functions["kmip.services.server.engine.KmipEngine._process_locate#bounded"] = "bounded"
